@@ -40,7 +40,9 @@ from ..exceptions import PkgcoreException, PkgcoreUserException
 from ..log import logger
 from . import const as e_const
 
-_global_ebp_lock = threading.Lock()
+# reentrant: the interrupt handlers (die/SIGINT/SIGTERM notices) drop processors
+# while request/release/shutdown_all hold the lock in the same thread
+_global_ebp_lock = threading.RLock()
 inactive_ebp_list = []
 active_ebp_list = []
 
@@ -95,12 +97,18 @@ def request_ebuild_processor(userpriv=False, sandbox=None, fd_pipes=None):
     if sandbox is None:
         sandbox = spawn.is_sandbox_capable()
 
-    for ebp in inactive_ebp_list:
+    for ebp in list(inactive_ebp_list):
         if ebp.userpriv == userpriv and (ebp.sandbox or not sandbox):
-            if not ebp.is_responsive:
+            responsive = ebp.is_responsive
+            # a die/signal notice read by is_responsive makes the interrupt
+            # handlers drop the processor from the lists themselves
+            with contextlib.suppress(ValueError):
                 inactive_ebp_list.remove(ebp)
+            if not responsive:
+                # out of sync or hung: make sure nothing (e.g. __del__) talks
+                # to it again and that the process does not linger
+                ebp.shutdown_processor(force=True)
                 continue
-            inactive_ebp_list.remove(ebp)
             active_ebp_list.append(ebp)
             break
     else:
